@@ -64,6 +64,17 @@ theorem eval_equivariant_of (M : Mat d) (hM : isSignedPerm M = true)
     funext j
     exact (transport_mat g _ j).symm
 
+/-- the checker accepts the tree on the transformed leaves exactly when it accepts it on the
+original ones, and declares the transformed type (same `k`, same parity) -/
+theorem tyOf_actEnv (g : SP d) (env : Nat → GImg R d) (e : Expr R) :
+    tyOf (fun i => (actEnv g.mat env i).ty) e = (tyOf (fun i => (env i).ty) e).map (Ty.act g) := by
+  have h : (fun i => (actEnv g.mat env i).ty) = fun i => ((env i).ty).act g := by
+    funext i
+    simp only [actEnv, GImg.act, GImg.ty, Ty.act, tge, rotDims_mat', Ty.mk.injEq, true_and]
+    funext j
+    exact transport_mat g _ j
+  rw [h, tyOf_act]
+
 theorem LCSign_23 (hd : d = 2 ∨ d = 3) (g : SP d) : LCSign g := by
   rcases hd with rfl | rfl
   · exact LCSign_two g
@@ -181,6 +192,20 @@ example : ConvHyp (R := Int) (d := 2) (fun _ A F => ⟨A.dims, A.k + F.k, fun _ 
    fun _ _ _ _ _ hA hF => ⟨hA.1, by simp only [hA.2.1, hF.2.1], fun _ _ _ => rfl⟩,
    fun g c c' _ A F _ _ => ⟨rfl, rfl, fun _ _ _ => by simp [pf]⟩⟩
 
+/-! sharpness: the declared parity matters -/
+
+/-- the reflection `y ↦ −y` of the second axis -/
+def reflY : SP 2 := ⟨Equiv.refl _, fun i => if i = 0 then 1 else -1, fun i => by
+  by_cases h : i = 0 <;> simp [h]⟩
+
+example : det reflY.mat = -1 := by decide
+
+/-- the parity flip of `levi_civita_contract` is necessary: with the operand's parity (scalar `1`
+instead of `det g`) the two sides differ at pixel (0,0), index [0] -/
+example : (leviCivitaI [0] (pf reflY 1 v0)).val (fun _ => 0) [0]
+    ≠ (pf reflY 1 (leviCivitaI [0] v0)).val (fun _ => 0) [0] := by decide
+example : (leviCivitaI [0] (pf reflY 1 v0)).val (fun _ => 0) [0]
+    = (pf reflY (1 * det reflY.mat) (leviCivitaI [0] v0)).val (fun _ => 0) [0] := by decide
 end Examples
 
 end GinjaxVerif.C05
